@@ -77,20 +77,21 @@ theorem inferInput_shape (pre post : Node) (ko ki : String) (vo vi : Val) (s : L
     (hpo : pre.outputType = .dict [(ko, vo)]) (hso : Spec.shapeOfVal vo = some s)
     (hpi : post.inputType = .dict [(ki, vi)]) (hvi : PortVal vi) :
     ∃ t, inferInput pre post = .ok (post.setInputType t) ∧ Spec.portShape t = some s ∧
-      (∀ si, Spec.shapeOfVal vi = some si → si = s → t = post.inputType) := by
+      (∀ si, Spec.shapeOfVal vi = some si → si = s → t = post.inputType) ∧
+      (t = .dict [(pyReplace ko "output" "input", vo)] ∨ t = post.inputType) := by
   have hco := shapeContent_of_some vo s hso
   cases pre with
   | mk pk pf pi po pm pc pe =>
   simp only [Node.outputType] at hpo
   subst hpo
   rcases portVal_cases vi hvi with ⟨rfl, hci⟩ | ⟨si, hsi, hci⟩
-  · refine ⟨.dict [(ko.replace "output" "input", vo)], ?_, by simp [Spec.portShape, hso], ?_⟩
+  · refine ⟨.dict [(pyReplace ko "output" "input", vo)], ?_, by simp [Spec.portShape, hso], ?_, Or.inl rfl⟩
     · simp [inferInput, needsInput, Node.outputType, hpi, typeLen, singleValue, shapeEq, hco, hci, typeUndefined_single, isNoneVal,
         renameKeys, insertAll, Py.insert, bind, Except.bind, pure, Except.pure]
     · intro si h; simp [Spec.shapeOfVal] at h
   · by_cases heq : si = s
     · subst heq
-      refine ⟨post.inputType, ?_, by rw [hpi]; simp [Spec.portShape, hsi], fun _ _ _ => rfl⟩
+      refine ⟨post.inputType, ?_, by rw [hpi]; simp [Spec.portShape, hsi], fun _ _ _ => rfl, Or.inr rfl⟩
       have hn : isNoneVal vi = false := isNoneVal_of_shape vi si hsi
       cases post with
       | mk k f i o m c e =>
@@ -98,7 +99,7 @@ theorem inferInput_shape (pre post : Node) (ko ki : String) (vo vi : Val) (s : L
         subst hpi
         simp [inferInput, needsInput, Node.outputType, typeLen, singleValue, shapeEq, hco, hci, typeUndefined_single, hn,
           bind, Except.bind, pure, Except.pure, Node.inputType, Node.outputType, Node.setInputType, Node.setTypes]
-    · refine ⟨.dict [(ko.replace "output" "input", vo)], ?_, by simp [Spec.portShape, hso], ?_⟩
+    · refine ⟨.dict [(pyReplace ko "output" "input", vo)], ?_, by simp [Spec.portShape, hso], ?_, Or.inl rfl⟩
       · have hne : (some s == some si) = false := by
           have : ¬ s = si := fun e => heq e.symm
           simp [this]
@@ -116,7 +117,7 @@ theorem stepNode_output (pre post : Node) (ko ki : String) (vo vi : Val) (s : Li
     (hpi : post.inputType = .dict [(ki, vi)]) (hvi : PortVal vi) :
     (stepNode pre post).2 = none ∧ Spec.portShape (stepNode pre post).1.inputType = some s ∧
       Spec.portShape (stepNode pre post).1.outputType = some s := by
-  obtain ⟨t, h1, hts, _⟩ := inferInput_shape pre post ko ki vo vi s hpo hso hpi hvi
+  obtain ⟨t, h1, hts, _, _⟩ := inferInput_shape pre post ko ki vo vi s hpo hso hpi hvi
   cases post with
   | mk k f i o m c e =>
   simp only [Node.kind] at hk
@@ -141,7 +142,7 @@ theorem stepNode_annotated (pre post : Node) (ko ki : String) (vo vi : Val) (s :
     (hpi : post.inputType = .dict [(ki, vi)]) (hvi : PortVal vi) :
     (stepNode pre post).2 = none ∧ Spec.portShape (stepNode pre post).1.inputType = some s ∧
       (stepNode pre post).1.outputType = post.outputType := by
-  obtain ⟨t, h1, hts, _⟩ := inferInput_shape pre post ko ki vo vi s hpo hso hpi hvi
+  obtain ⟨t, h1, hts, _, _⟩ := inferInput_shape pre post ko ki vo vi s hpo hso hpi hvi
   cases post with
   | mk k f i o m c e =>
   simp only [Node.kind, Node.outputType] at hk hout
